@@ -150,6 +150,55 @@ def classify(prog, actual, expected, diff):
     return ("Array comparison/logic", "/".join(n for n in names if n))
 
 
+def vector_case(osy, out, op, dunder, ua, ub, avs, bv, bvs, pyk, plan):
+    """Vector (op) Array / number / ndarray / Quantity / Vector on non-finite values: every component follows the Array plan"""
+    import numpy as np
+
+    a = osy.Vector(*[x.copy() for x in avs], unit=ua)
+    if bvs is not None:
+        b = osy.Vector(*[x.copy() for x in bvs], unit=ub)
+    elif pyk == "var":
+        b = osy.Array(values=bv.copy(), unit=ub)
+    elif pyk == "qty":
+        b = bv.copy() * osy.units(ub)
+    elif pyk == "num":
+        b = float(bv)
+    else:
+        b = bv.copy()
+    try:
+        with np.errstate(all="ignore"):
+            res = getattr(a, dunder)(b)
+        comps = [getattr(res, c) for c in "xyz"[:len(avs)]]
+        got = ("ok", [np.asarray(c.values) for c in comps], [str(c.unit) for c in comps])
+    except Exception as e:  # noqa: BLE001
+        got = ("err", type(e).__name__)
+    out.compared += 1
+    out.nontrivial.add("nonfinite-vector:" + str(out.evaluations))
+    bad = None
+    if "err" in plan:
+        if got[0] != "err":
+            bad = f"Vector in {ua!r} compared with an operand in {ub!r} (incompatible) without raising"
+    elif got[0] == "err":
+        bad = f"raised {got[1]} although the units {ua!r} and {ub!r} are compatible"
+    else:
+        for c, x in enumerate(avs):
+            y = bvs[c] if bvs is not None else bv
+            with np.errstate(all="ignore"):
+                want = getattr(np, plan["np"])(x, y * float(Fraction(plan["ratio"]))) if plan["converted"] else getattr(np, plan["np"])(x, y)
+            if got[1][c].shape != want.shape or not np.array_equal(got[1][c], want):
+                bad = (f"Vector {op} on non-finite values, component {'xyz'[c]}: observed {got[1][c].tolist()}, numpy {plan['np']} on the "
+                       f"converted quantities gives {want.tolist()}")
+                break
+            if got[2][c] not in ("dimensionless", ""):
+                bad = f"the boolean component {'xyz'[c]} carries the unit {got[2][c]}"
+                break
+    if bad:
+        out.violations.append({"what": bad, "case": {"op": op, "lhs_components": [[repr(v) for v in x.reshape(-1).tolist()] for x in avs], "lhs_unit": ua,
+                                                     "rhs": [repr(v) for v in bv.reshape(-1).tolist()] if bvs is None else [[repr(v) for v in y.reshape(-1).tolist()] for y in bvs],
+                                                     "rhs_unit": ub, "rhs_kind": "vector" if bvs is not None else pyk},
+                               "call_site": "Vector comparison", "input_class": "nonfinite-vector:" + op})
+
+
 def check_nonfinite(ctx, out):
     """Comparisons on operands holding nan / +-inf. The rational model cannot hold those values, so the model supplies the
     *plan* (`binaryPlan`, tied to `ArrV.binaryOp` by theorem C07_plan_agrees): which numpy kernel is applied after which
@@ -185,12 +234,20 @@ def check_nonfinite(ctx, out):
                 ua = r.choice(fams["dimensionless"])
             if pyk == "num":
                 bv = bv.reshape(-1)[:1].reshape(())
+        # a third of the cases compare a Vector (component-wise lifting of the same plan, C09): its components hold their own
+        # non-finite values; the other operand is as before, or a Vector of the same number of components
+        nvec = r.choice([0, 0, 1, 2, 3])
+        avs = [vals(sa) for _ in range(nvec)]
+        bvs = [vals(sb) for _ in range(nvec)] if (nvec and pyk == "var" and r.random() < 0.5) else None
         jobs.append({"engine": "binplan", "name": op, "lu": ucat.unit_json(osy, ua), "ru": ucat.unit_json(osy, ub)})
-        metas.append((op, ua, ub, av, bv, pyk))
+        metas.append((op, ua, ub, av, bv, pyk, avs, bvs))
     plans = lean.run_driver(jobs)
     pyop = {"lt": "__lt__", "le": "__le__", "gt": "__gt__", "ge": "__ge__", "eq": "__eq__", "ne": "__ne__"}
-    for (op, ua, ub, av, bv, pyk), plan in zip(metas, plans):
+    for (op, ua, ub, av, bv, pyk, avs, bvs), plan in zip(metas, plans):
         out.evaluations += 1
+        if avs:
+            vector_case(osy, out, op, pyop[op], ua, ub, avs, bv, bvs, pyk, plan)
+            continue
         a = osy.Array(values=av.copy(), unit=ua)
         if pyk == "var":
             b = osy.Array(values=bv.copy(), unit=ub)
